@@ -560,7 +560,24 @@ func (m *Model) Ancestors(loc string) ([]string, error) {
 		return nil
 	}
 	err := walk(loc, map[string]bool{})
+	if err == nil {
+		seen := map[string]bool{}
+		for _, n := range out {
+			if seen[n] {
+				// an ancestor reached along two paths: inherited results appear
+				// once per path (or as a duplicate-id error); not judged
+				return out, refuse("dontcare: diamond ancestry")
+			}
+			seen[n] = true
+		}
+	}
 	return out, err
+}
+
+// DontCare reports whether a model refusal means "the statements leave this open".
+func DontCare(err error) bool {
+	me, ok := err.(*ErrModel)
+	return ok && (strings.HasPrefix(me.Why, "matcher:") || strings.HasPrefix(me.Why, "dontcare:"))
 }
 
 func (m *Model) Parents(l *MLoc) []string {
@@ -630,11 +647,8 @@ func (m *Model) Search(loc string, pattern map[string]interface{}, inherited boo
 				return nil, refuse("matcher: %v", err)
 			}
 			if len(bss) > 0 {
-				key := id
-				if _, dup := out[key]; dup {
-					key = n + "/" + id
-				}
-				out[key] = bss
+				out[id] = append(out[id], bss...)
+				sort.Strings(out[id])
 			}
 		}
 	}
@@ -672,9 +686,23 @@ func (m *Model) RuleDisabled(l *MLoc, id string) bool {
 
 // Dispatch models rule dispatch for an event: ruleId -> multiset of bindings.
 func (m *Model) Dispatch(loc string, event map[string]interface{}, p Prot) (map[string][]string, error) {
-	names, err := m.Ancestors(loc)
-	if err != nil {
-		return nil, err
+	return m.dispatch(loc, event, p, true, true)
+}
+
+// SearchRules models Location.SearchRules: like Dispatch but the disabled
+// flag is not consulted.
+func (m *Model) SearchRules(loc string, event map[string]interface{}, inherited bool, p Prot) (map[string][]string, error) {
+	return m.dispatch(loc, event, p, false, inherited)
+}
+
+func (m *Model) dispatch(loc string, event map[string]interface{}, p Prot, honourDisabled, inherited bool) (map[string][]string, error) {
+	names := []string{loc}
+	if inherited {
+		var err error
+		names, err = m.Ancestors(loc)
+		if err != nil {
+			return nil, err
+		}
 	}
 	self := m.Loc(loc)
 	out := map[string][]string{}
@@ -702,7 +730,7 @@ func (m *Model) Dispatch(loc string, event map[string]interface{}, p Prot) (map[
 			if !ok {
 				continue
 			}
-			if m.RuleDisabled(self, id) {
+			if honourDisabled && m.RuleDisabled(self, id) {
 				continue
 			}
 			bss, err := MatchBindings(pat, event)
